@@ -210,23 +210,6 @@ def showRes : Res Val → String
 
 /-! ### hypotheses of the theorems, checked on the real input -/
 
-def bindsOK : List Bind → Bool
-  | [] => true
-  | b :: bs => bs.all (fun c => c.var != b.name) && bindsOK bs
-
-mutual
-def leavesOK : DT β → Bool
-  | .leaf binds _ => bindsOK binds
-  | .missing _ => true
-  | .letProj _ _ _ _ _ rest => leavesOK rest
-  | .letGet _ _ _ _ _ _ rest => leavesOK rest
-  | .switch _ _ _ cases => casesOK cases
-def casesOK : Cases β → Bool
-  | .nil => true
-  | .dflt t => leavesOK t
-  | .cons _ t rest => leavesOK t && casesOK rest
-end
-
 def isGenName (x : String) : Bool :=
   x.startsWith "x" && (x.drop 1).all Char.isDigit && x.length > 1
 
